@@ -131,3 +131,20 @@ CHECKS["C02"] = {
     "mandatory_labels": {"all": ["tree/edge-attempt", "tree/duplicate", "tree/out-of-order-success", "random/edge-attempt", "random/duplicate",
                                  "random/out-of-order-success", "random/re-registration", "random/two-senders"]},
 }
+
+CHECKS["C09"] = {
+    "level": "exploration",
+    "level_text": ("real parallelism (16 cores) with seeded delays injected into every datastore access of the sender's secret store, plus controlled "
+                   "schedules (DFS + rapid choice vectors) over an instrumented copy of secret_store_messages.go with a scheduling point at every datastore "
+                   "access; oracle on the returned envelopes: distinct gap-free counters, all open at a receiver, stored counter monotone"),
+    "level_note": "the parallel tier is not reproducible (its replay file is the printed scenario); the controlled tier is a pure function of the choice vector",
+    "technique": "generated-schedule exploration + randomized concurrency stress with a returned-value oracle",
+    "rule": ("parallel: case = (group kinds, N senders, M messages, delay seed); non-trivial = >=2 SealEnvelope calls in flight at once (measured). controlled: "
+             "case = schedule; non-trivial = some task had to wait for the message mutex. distinct = distinct scenario+seed / (scenario, trace)"),
+    "assumptions": ["datastore operations are individually atomic"],
+    "units": [
+        {"pkg": _SS, "run": "^TestVerif_C09_Parallel", Q: {"timeout": 600}, T: {"timeout": 3400, "shards": 4}},
+        {"pkg": _SS, "run": "^TestVerif_C09_Controlled", "inst": ["pkg/secretstore/secret_store_messages.go"], Q: {"timeout": 600}, T: {"timeout": 3400, "shards": 8}},
+    ],
+    "mandatory_labels": {"all": ["parallel/overlapping-sends", "parallel/several-groups", "controlled/dfs-schedules", "controlled/contended-lock"]},
+}
